@@ -436,8 +436,13 @@ def run(ctx: Ctx) -> int:
     # library's dumper as well, and what a dump writes then depends on whether any yaml text was loaded before
     rir = ctx.func("_loaders_dumpers:remove_implicit_resolver")
     MUT = {"append", "remove", "pop", "clear", "extend", "insert", "sort", "reverse", "__setitem__", "__delitem__", "__iadd__"}
-    loops_r = [l for l in walk_local(rir) if isinstance(l, ast.For) and "yaml_implicit_resolvers" in ast.unparse(l.iter)]
-    ctx.need(loops_r, "remove_implicit_resolver: loop over cls.yaml_implicit_resolvers")
+    table_alias = {s_.targets[0].id for s_ in walk_local(rir) if isinstance(s_, ast.Assign) and isinstance(s_.targets[0], ast.Name) and "yaml_implicit_resolvers" in ast.unparse(s_.value)}
+
+    def _is_table(e: ast.AST) -> bool:
+        return "yaml_implicit_resolvers" in ast.unparse(e) or root_name(e.func if isinstance(e, ast.Call) else e) in table_alias
+
+    loops_r = [l for l in walk_local(rir) if isinstance(l, ast.For) and _is_table(l.iter)]
+    ctx.need(loops_r, "remove_implicit_resolver: loop over the resolver table")
     for l in loops_r:
         tnames = [n_.id for n_ in ast.walk(l.target) if isinstance(n_, ast.Name)]
         leaf_ = call_leaf(l.iter) if isinstance(l.iter, ast.Call) else None
@@ -451,7 +456,7 @@ def run(ctx: Ctx) -> int:
                 bad.append(n_)
         ok = not bad
         ctx.oblige("C09.f", ok, bad[0] if bad else l, "the shared resolver lists are not edited in place" if ok else f"`{src(bad[0], 60)}` edits a resolver list in place: after the shallow copy of the table these lists still belong to PyYAML's Resolver and to the library's dumper - the timestamp resolver disappears there too, and the same dump writes '2024-01-01' quoted before and unquoted after an unrelated parse", fn=rir)
-        rebinds = [s_ for s_ in l.body if isinstance(s_, ast.Assign) and isinstance(s_.targets[0], ast.Subscript) and "yaml_implicit_resolvers" in ast.unparse(s_.targets[0].value) and isinstance(s_.value, (ast.ListComp, ast.List)) or (isinstance(s_, ast.Assign) and isinstance(s_.value, ast.Call) and call_leaf(s_.value) == "list")]
+        rebinds = [s_ for s_ in l.body if isinstance(s_, ast.Assign) and isinstance(s_.targets[0], ast.Subscript) and _is_table(s_.targets[0].value) and (isinstance(s_.value, (ast.ListComp, ast.List)) or (isinstance(s_.value, ast.Call) and call_leaf(s_.value) == "list"))]
         ok = bool(rebinds) and isinstance(l.iter, ast.Call) and not l.iter.args
         ctx.oblige("C09.f", ok, rebinds[0] if rebinds else l, "every entry of the table is rebound to a new list (later add_implicit_resolver calls append to private lists)" if ok else "not every entry of the resolver table is replaced by a new list: PyYAML's add_implicit_resolver appends to the lists it finds - the library's float resolver would be added to PyYAML's own classes", fn=rir)
 
